@@ -296,6 +296,14 @@ impl Check for C02 {
                             single = p1;
                             (&mut single, &single_prog)
                         }
+                        // two written-out anonymous record types that list the same
+                        // fields in different orders: the property does not say that
+                        // they are one type, so a type error is an allowed answer
+                        Err(host::CompileFail::Report(r)) if pr.kind.starts_with("two-written-types ") && r.contains("Type error") => {
+                            cx.states(1);
+                            cx.count("two_written_types_rejected", 1);
+                            continue;
+                        }
                         Err(e) => {
                             cx.states(1);
                             cx.violation(
